@@ -47,6 +47,11 @@ impl SeqGuard {
         },
     { unimplemented!() }
 
+    // the rest of the read-only map surface, so that code using it can still be checked (a value read through a guard that has since
+    // been released gives no reservation: only `get` on the guard that is still held reserves)
+    #[verifier::external_body]
+    pub fn contains_key(&self, k: &str) -> (r: bool) ensures r == self@.contains_key(k@) { unimplemented!() }
+
     // effect constraint: the counter may be (re)initialised to the reserved value, or moved by
     // exactly +1 after the truth log accepted the frame carrying the old value
     #[verifier::external_body]
